@@ -174,4 +174,8 @@ def pkg_cases(draw, max_classes: int = 7, leaf_only_instance_attrs: bool = False
         new_bases = draw(st.permutations(pool))[:size] if size else []
         new_members = [draw(st.sampled_from((0, 0, 1, 2, 3))) for _ in H.NAMES]
         case["history"] = {"type": "replace", "target": j, "bases": new_bases, "members": new_members}
+        srcs = [k for k, v in enumerate(new_members) if v]
+        dsts = [k for k, v in enumerate(new_members) if not v]
+        if srcs and dsts and draw(st.integers(0, 1)):
+            case["history"]["also"] = [draw(st.sampled_from(srcs)), draw(st.sampled_from(dsts))]
     return case
